@@ -25,29 +25,81 @@ Property clause → theorem  (model: `Comdex/Model/Liquidation.lean`, both gener
       `C09.two_sweeps_if_one_shift`, `C09.unsafe_processed_is_seized` (a position handed to the step IS seized when
       liquidation and the auction type are enabled, prices active, no emergency control).
 * "seizure moves exactly the recorded collateral into auction custody and opens exactly one auction for it"
-    → `C09.seize_moves_exactly_collateral`, `C09.seize_opens_one_auction` (vault seizures, both generations),
-      `C09.borrow_step_atomic` (a borrow step does nothing or the complete seizure) and, for whole blocks and messages,
-      `C09.flagged_borrow_is_backed` (since fix c15713f: every borrow flagged by a hook or message has a new locked vault and
-      a new auction; a failing borrow leaves no writes: `C09.failing_step_leaves_no_writes`).
+    → `C09.seize_moves_exactly_collateral` (vaults, both generations: the WHOLE recorded collateral moves, is the amount on the
+      locked vault and on the auction, never exceeds custody; debt / fee / bonus / target / ratio on the locked vault as the code
+      computes them after booking the interest; lend accounting untouched), `C09.seize_opens_one_auction`,
+      `C09.borrow_step_atomic` (generation-2 borrow: pledged amount pool → auction, cTokens burnt, fee and bonus on the principal,
+      target = principal + fee, `TotalBorrowed` / `TotalLend` / lend position reduced by exactly what left),
+      `C09.flagged_borrow_is_backed`, `C09.failing_step_leaves_no_writes`; generation-1 borrow sell-off:
+      `C09.v1_selloff_records` and — FALSE for the transfers — `C09.v1_selloff_can_exceed_collateral_counterexample` (D33).
+* accrual: `C09.vault_safe_after_accrual_not_seized`, `C09.vault_decision_is_on_recorded_debt` (the vault decision ignores
+  interest not yet booked), `C09.borrow_decision_after_accrual`.
+* emergency controls and whitelisting: `C09.safe_never_seized` now carries `GuardsOff` for every removed vault and the kill
+  switch / whitelisting for every flagged borrow; `C09.guarded_vault_never_seized`, `C09.guards_reject`.
 -/
 namespace Comdex.C09
 open Comdex Comdex.Liquidation
 
 /-! ## safety -/
 
-/-- **Safe positions are never seized** — all four entry points, all states, all inputs.
-`Removes e w w'`: `w'.vaults ⊆ w.vaults` and every vault of `w` missing in `w'` satisfies `vaultUnsafe e`
-(the code's `CR(amountIn, principal + interest + closingFee) < MinCr`).  `KeepsB`: a borrow that is not flagged and
-fails `borrowUnsafe e` (ratio > applicable threshold) is still there with an identical record. -/
+/-- **Safe positions are never seized, guarded positions neither** — all four entry points, all states, all inputs.
+`Removes e w w'`: `w'.vaults ⊆ w.vaults` and every vault of `w` missing in `w'` satisfies `vaultUnsafe e` (the code's
+`CR(amountIn, principal + interest + closingFee) < MinCr` on the recorded debt) AND `GuardsOff` (no ESM, no kill switch for its
+app, app whitelisted for liquidation).  `KeepsB`: an unflagged borrow that fails `borrowUnsafe e` (ratio AFTER the accrual >
+applicable threshold), or whose app has the kill switch on, or is not whitelisted, is still there with an identical record.
+`AppsUnique`: app records are keyed by id. -/
 theorem safe_never_seized :
     (∀ e batch w w', NodupIds w → NodupB w → (blockV2 e batch w).world? = some w' → Removes e w w' ∧ KeepsB e w w') ∧
-    (∀ e batch w w', NodupIds w → (blockV1 e batch w).world? = some w' → Removes e w w') ∧
+    (∀ e batch w w', AppsUnique e → NodupIds w → (blockV1 e batch w).world? = some w' → Removes e w w') ∧
     (∀ e liqType id w w', NodupIds w → NodupB w → msgLiquidateV2 e liqType id w = some w' → Removes e w w' ∧ KeepsB e w w') ∧
     (∀ e app id w w', NodupIds w → msgLiquidateVaultV1 e app id w = some w' → Removes e w w') :=
   ⟨fun e batch w w' hn hb h => let r := blockV2_rel e batch w w' hn hb h; ⟨r.1, r.2.1⟩,
-   fun e batch w w' hn h => (blockV1_rel e batch w w' hn h).1,
+   fun e batch w w' hU hn h => (blockV1_rel e batch w w' hU hn h).1,
    fun e t id w w' hn hb h => let r := msgLiquidateV2_rel e t id w w' hn hb h; ⟨r.1, r.2.1⟩,
    fun e a id w w' hn h => (msgLiquidateVaultV1_rel e a id w w' hn h).1⟩
+
+/-- **Guard on ⇒ nothing seized** (corollary, contrapositive form): whatever the entry point, a vault whose app has the ESM
+executed, or the kill switch on, or is whitelisted in neither generation, is still there afterwards. -/
+theorem guarded_vault_never_seized (e : Env) (w w' : World) (hr : Removes e w w') (q : Vault) (hq : q ∈ w.vaults)
+    (hg : (e.app q.app).esm = true ∨ (e.app q.app).kill = true ∨ ((e.app q.app).wl2 = false ∧ (e.app q.app).wl1 = false)) :
+    q ∈ w'.vaults := by
+  apply Classical.byContradiction
+  intro hn
+  obtain ⟨_, h1, h2, h3⟩ := hr.2 q hq hn
+  rcases hg with hg | hg | hg
+  · rw [h1] at hg; cases hg
+  · rw [h2] at hg; cases hg
+  · rcases h3 with h3 | h3
+    · rw [hg.1] at h3; cases h3
+    · rw [hg.2] at h3; cases h3
+
+/-- **The guards of the liquidate messages and of the per-position steps reject outright** (`none` = the transaction
+fails / the wrapped step is rolled back): generation 2 vault step under ESM, kill switch or missing whitelisting;
+generation 2 borrow step under the kill switch (an unflagged borrow); generation 1 message for an app that is not whitelisted
+or has ESM / kill switch on; and the generation 1 sweep skips such an app entirely. -/
+theorem guards_reject :
+    (∀ (e : Env) (id : Nat) (w : World) (v : Vault), w.vaults.find? (·.id == id) = some v →
+      ((e.app v.app).esm = true ∨ (e.app v.app).kill = true ∨ (e.app v.app).wl2 = false) → liquidateVaultV2 e id w = none) ∧
+    (∀ (e : Env) (id : Nat) (w : World) (b : Borrow), w.borrows.find? (·.id == id) = some b → b.liquidated = false →
+      (e.app b.app).kill = true → liquidateBorrowV2 e id w = none) ∧
+    (∀ (e : Env) (app id : Nat) (w : World),
+      ((e.app app).wl1 = false ∨ (e.app app).kill = true ∨ (e.app app).esm = true) → msgLiquidateVaultV1 e app id w = none) ∧
+    (∀ (e : Env) (batch : Nat) (a : App) (rest : List App) (w : World), (a.kill = true ∨ a.esm = true) →
+      appsLoopV1 e batch (a :: rest) w = appsLoopV1 e batch rest w) := by
+  refine ⟨?_, ?_, ?_, ?_⟩
+  · intro e id w v hf hg
+    unfold liquidateVaultV2
+    simp only [hf]
+    rcases hg with hg | hg | hg <;> simp [hg]
+  · intro e id w b hf hl hk
+    unfold liquidateBorrowV2
+    simp [hf, hl, hk]
+  · intro e app id w hg
+    unfold msgLiquidateVaultV1
+    rcases hg with hg | hg | hg <;> simp [hg]
+  · intro e batch a rest w hg
+    conv => lhs; unfold appsLoopV1
+    rcases hg with hg | hg <;> simp [hg]
 
 /-- the test is the strict one: a vault exactly AT the liquidation ratio is not unsafe -/
 theorem unsafe_test_is_strict (e : Env) (v : Vault) (p : Product) (hp : e.product? v.prod = some p)
@@ -203,21 +255,76 @@ theorem two_sweeps_counterexample :
   decide
 
 /-- **A processed unsafe position IS seized** when liquidation and its auction type are enabled for the app, no
-emergency control is on, prices are active and custody holds the recorded collateral (generation 2; generation 1). -/
+emergency control is on, prices are active and custody holds the recorded collateral — vaults of generation 2 and 1 (unsafe
+on the recorded debt; `k` = the amounts computed after the accrual) and borrows of generation 2 (unsafe AFTER the accrual,
+same-pool, cross-pool and e-mode alike: `borrowUnsafe` is the test on `borrowThreshold`). -/
 theorem unsafe_processed_is_seized :
-    (∀ (e : Env) (id : Nat) (w : World) (v : Vault) (p : Product),
+    (∀ (e : Env) (id : Nat) (w : World) (v : Vault) (p : Product) (k : Amounts),
       w.vaults.find? (·.id == id) = some v → e.product? v.prod = some p →
       (e.app v.app).esm = false → (e.app v.app).kill = false → (e.app v.app).wl2 = true → (e.app v.app).dutch2 = true →
       e.priceActive p.assetIn = true → e.priceActive p.assetOut = true →
-      v.amountIn ≤ w.vaultBal.get p.assetIn → vaultUnsafe e v = true →
-      ∃ w', liquidateVaultV2 e id w = some w' ∧ handOver w v p.assetIn = some w' ∧ ∀ q, q ∈ w'.vaults → q.id ≠ v.id) ∧
-    (∀ (e : Env) (a : Nat) (w : World) (v : Vault) (p : Product),
+      v.amountIn ≤ w.vaultBal.get p.assetIn → vaultUnsafe e v = true → amountsV2 e p v = some k →
+      ∃ w', liquidateVaultV2 e id w = some w' ∧ handOver w v p.assetIn k = some w' ∧ ∀ q, q ∈ w'.vaults → q.id ≠ v.id) ∧
+    (∀ (e : Env) (a : Nat) (w : World) (v : Vault) (p : Product) (k : Amounts),
       v.app = a → e.product? v.prod = some p → (e.app a).auc1 = true →
       e.priceActive p.assetIn = true → (p.outOracle = true → e.priceActive p.assetOut = true) →
-      v.amountIn ≤ w.vaultBal.get p.assetIn → vaultUnsafe e v = true →
-      ∃ w', liquidateVaultV1 e a v w = some w' ∧ handOver w v p.assetIn = some w' ∧ ∀ q, q ∈ w'.vaults → q.id ≠ v.id) :=
-  ⟨fun e id w v p hf hp h1 h2 h3 h4 h5 h6 h7 h8 => liquidateVaultV2_seizes e id w v p hf hp h1 h2 h3 h4 h5 h6 h7 h8,
-   fun e a w v p h1 hp h2 h3 h4 h5 h6 => liquidateVaultV1_seizes e a w v p h1 hp h2 h3 h4 h5 h6⟩
+      v.amountIn ≤ w.vaultBal.get p.assetIn → vaultUnsafe e v = true → amountsV1 e p v = some k →
+      ∃ w', liquidateVaultV1 e a v w = some w' ∧ handOver w v p.assetIn k = some w' ∧ ∀ q, q ∈ w'.vaults → q.id ≠ v.id) ∧
+    (∀ (e : Env) (id : Nat) (w : World) (b : Borrow) (r : Dec),
+      w.borrows.find? (·.id == id) = some b → b.liquidated = false → borrowRatio e b = some r → borrowUnsafe e b = true →
+      (e.app b.app).kill = false → (e.app b.app).wl2 = true → (e.app b.app).dutch2 = true →
+      e.priceActive b.assetIn = true → e.priceActive b.assetOut = true →
+      b.amountIn ≤ w.poolBal.get b.assetIn → b.amountIn ≤ w.poolBal.get b.cAsset →
+      liquidateBorrowV2 e id w = some (borrowSeized e w id b r)) :=
+  ⟨fun e id w v p k hf hp h1 h2 h3 h4 h5 h6 h7 h8 hk => liquidateVaultV2_seizes e id w v p hf hp h1 h2 h3 h4 h5 h6 h7 h8 k hk,
+   fun e a w v p k h1 hp h2 h3 h4 h5 h6 hk => liquidateVaultV1_seizes e a w v p h1 hp h2 h3 h4 h5 h6 k hk,
+   fun e id w b r hf hl hr hu h1 h2 h3 h4 h5 h6 h7 => liquidateBorrowV2_seizes e id w b r hf hl hr hu h1 h2 h3 h4 h5 h6 h7⟩
+
+/-! ### safety judged after the accrual -/
+
+/-- **Vaults: safe after the accrual ⇒ not seized.** Both generations take the decision on the RECORDED debt and book the
+interest afterwards. If the interest the seizure would book is non-negative (`interest ≤ intPost`) and the vault is at or
+above the liquidation ratio on the debt AFTER that accrual, then it is not unsafe on the recorded debt either (the ratio is
+antitone in the debt, `vaultCR_anti_debt`), hence — `safe_never_seized` — never seized. -/
+theorem vault_safe_after_accrual_not_seized (e : Env) (v : Vault) (p : Product) (crPost : Dec)
+    (hp : e.product? v.prod = some p) (hn : EnvNonneg e p) (h0 : 0 ≤ v.totalOut) (hacc : v.interest ≤ v.intPost)
+    (hpost : vaultCR e p v.amountIn v.totalOutPost = some crPost) (hsafe : p.minCr ≤ crPost) : vaultUnsafe e v = false := by
+  unfold vaultUnsafe vaultCRof
+  simp only [hp]
+  cases hpre : vaultCR e p v.amountIn v.totalOut with
+  | none => rfl
+  | some cr =>
+    have hle : v.totalOut ≤ v.totalOutPost := by unfold Vault.totalOut Vault.totalOutPost; omega
+    have := vaultCR_anti_debt e p v.amountIn v.totalOut v.totalOutPost cr crPost hn h0 hle hpre hpost
+    have h2 : ¬ (cr < p.minCr) := Int.not_lt.mpr (Int.le_trans hsafe this)
+    simp [h2]
+
+/-- The converse fails, and the model says so: the decision ignores interest that is not booked yet. Recorded debt
+1 000 000 (ratio 1.5004 ≥ 1.5), 50 000 of interest would be booked by the seizure (ratio after: 1.429): the vault is NOT
+seized by the generation-2 hook; once the interest is on the record it is. -/
+theorem vault_decision_is_on_recorded_debt :
+    let e : Env := { assets := [{ id := 1, decimals := 1000000, price := some 1800000 }, { id := 2, decimals := 1000000, price := some 1000000 }]
+                     products := [{ id := 1, app := 1, minCr := 1500000000000000000, assetIn := 1, assetOut := 2, outOracle := true, outFixed := 1000000 }]
+                     apps := [{ id := 1, wl2 := true, dutch2 := true }] }
+    let v : Vault := { id := 1, app := 1, prod := 1, amountIn := 833600, amountOut := 1000000, interest := 0, closingFee := 0, intPost := 50000 }
+    let w : World := { vaults := [v], counter := 1, vaultBal := [(1, 833600)] }
+    (∃ w', (blockV2 e 5 w).world? = some w' ∧ w'.vaults = [v]) ∧
+    (∃ w', (blockV2 e 5 { w with vaults := [{ v with interest := 50000 }] }).world? = some w' ∧ w'.vaults = [] ∧
+       w'.newLocked.map (·.debt) = [1050000]) := by
+  refine ⟨⟨_, rfl, by decide⟩, ⟨_, rfl, by decide, by decide⟩⟩
+
+/-- **Borrows: the decision is taken after the accrual.** `borrowUnsafe` compares
+`(principal + trunc(interest after the in-memory accrual)) · price / collateral value` with the applicable threshold; so
+(`safe_never_seized`) safe-after-accrual borrows are never touched and (`unsafe_processed_is_seized`) unsafe-after-accrual
+borrows that are reached are seized. -/
+theorem borrow_decision_after_accrual (e : Env) (b : Borrow) :
+    b.debt = b.principal + Dec.truncateInt b.interestPost ∧
+    (borrowUnsafe e b = true ↔ ∃ r, borrowRatio e b = some r ∧ r > borrowThreshold b) := by
+  refine ⟨rfl, ?_⟩
+  unfold borrowUnsafe
+  cases h : borrowRatio e b with
+  | none => simp
+  | some r => simp
 
 /-! ### generation 2: the vault sweep is not disturbed by the borrow sweep (fix 16be2e4) -/
 
@@ -231,7 +338,8 @@ theorem v2_vault_offset_independent_of_borrow_pass (e : Env) (batch : Nat) (w w'
 
 def witEnv : Env :=
   { assets := [{ id := 1, decimals := 1000000, price := some 1800000 }, { id := 2, decimals := 1000000, price := some 1000000 }]
-    products := [{ id := 1, app := 1, minCr := 1500000000000000000, assetIn := 1, assetOut := 2, outOracle := true, outFixed := 1000000 }]
+    products := [{ id := 1, app := 1, minCr := 1500000000000000000, assetIn := 1, assetOut := 2, outOracle := true, outFixed := 1000000,
+                   penalty := 120000000000000000 }]
     apps := [{ id := 1, wl2 := true, dutch2 := true, wl1 := true, auc1 := true }] }
 
 def witWorld : World :=
@@ -255,26 +363,36 @@ theorem v2_witness_seized :
 
 /-! ### generation 2: borrow steps are atomic (fix c15713f) -/
 
-/-- **A borrow step does nothing or everything**: a successful `LiquidateIndividualBorrow` either leaves the state
-unchanged or it addressed an unflagged borrow `b` with ratio above its threshold and produced `borrowSeized w id b` —
-flag set, exactly `b.amountIn` of the collateral asset moved pool → auction account, locked-vault id and auction id
-advanced by one, one locked vault for `b` and one auction over (`b.assetIn`, `b.amountIn`) for that locked vault. -/
+/-- **A borrow step does nothing or everything, and hands over exactly what was pledged**: a successful
+`LiquidateIndividualBorrow` either leaves the state unchanged or it addressed an unflagged borrow `b`, unsafe after the accrual
+(ratio `r`), with the kill switch off, the lend app whitelisted with Dutch auctions, and produced `borrowSeized e w id b r`:
+* exactly `b.amountIn` (the pledged cTokens, 1:1 in the underlying) of the collateral asset moves pool → auction account, the
+  same amount of cTokens is burnt from the pool account, and the pool held at least that much of both;
+* locked vault: collateral `b.amountIn`, `DebtToken` = the principal (NOT the accrued interest), `FeeToBeCollected` =
+  trunc(principal · LiquidationPenalty), `BonusToBeGiven` = trunc(principal · LiquidationBonus), `TargetDebt` = principal + fee,
+  ratio `r`; exactly one auction over (`b.assetIn`, `b.amountIn`) with the same target;
+* pool totals and the lend position shrink by exactly what left: `TotalBorrowed(outPool, assetOut) −= principal`,
+  `TotalLend(pool, assetIn) −= amountIn`, lend position `−= amountIn` (deleted when nothing is left). -/
 theorem borrow_step_atomic (e : Env) (id : Nat) (w w' : World) (h : liquidateBorrowV2 e id w = some w') :
-    w' = w ∨ ∃ b, w.borrows.find? (·.id == id) = some b ∧ b.liquidated = false ∧ borrowUnsafe e b = true ∧
-      b.amountIn ≤ w.poolBal.get b.assetIn ∧ w' = borrowSeized w id b ∧
+    w' = w ∨ ∃ b r, w.borrows.find? (·.id == id) = some b ∧ b.liquidated = false ∧ borrowRatio e b = some r ∧
+      borrowUnsafe e b = true ∧ (e.app b.app).kill = false ∧ (e.app b.app).wl2 = true ∧ (e.app b.app).dutch2 = true ∧
+      b.amountIn ≤ w.poolBal.get b.assetIn ∧ b.amountIn ≤ w.poolBal.get b.cAsset ∧ w' = borrowSeized e w id b r ∧
       w'.auctionBal.get b.assetIn = w.auctionBal.get b.assetIn + b.amountIn ∧
-      w'.poolBal.get b.assetIn = w.poolBal.get b.assetIn - b.amountIn ∧
-      w'.newAuctions = w.newAuctions ++ [{ id := w.auctionId + 1, locked := w.lockedId + 1, asset := b.assetIn, amount := b.amountIn }] ∧
-      w'.newLocked = w.newLocked ++ [{ id := w.lockedId + 1, orig := b.id, app := b.app, amountIn := b.amountIn, isBorrow := true }] := by
+      w'.totalBorrowed.get (statKey b.outPool b.assetOut) = w.totalBorrowed.get (statKey b.outPool b.assetOut) - b.principal ∧
+      w'.totalLend.get (statKey b.pool b.assetIn) = w.totalLend.get (statKey b.pool b.assetIn) - b.amountIn ∧
+      (∃ l a, w'.newLocked = w.newLocked ++ [l] ∧ w'.newAuctions = w.newAuctions ++ [a] ∧
+        l.amountIn = b.amountIn ∧ a.amount = b.amountIn ∧ a.asset = b.assetIn ∧ a.locked = l.id ∧ l.orig = b.id ∧
+        l.debt = b.principal ∧ l.fee = Dec.truncateInt (Dec.mul (Dec.ofInt b.principal) b.pen) ∧
+        l.bonus = Dec.truncateInt (Dec.mul (Dec.ofInt b.principal) b.bon) ∧ l.target = l.debt + l.fee ∧ a.target = l.target ∧ l.cr = r) := by
   cases liquidateBorrowV2_cases e id w w' h with
   | inl h => exact Or.inl h
   | inr h =>
-    obtain ⟨b, hf, hl, hu, hbal, hw⟩ := h
-    refine Or.inr ⟨b, hf, hl, hu, hbal, hw, ?_, ?_, ?_, ?_⟩
+    obtain ⟨b, r, hf, hl, hr, hu, hk, hwl, hd, hb1, hb2, hw⟩ := h
+    refine Or.inr ⟨b, r, hf, hl, hr, hu, hk, hwl, hd, hb1, hb2, hw, ?_, ?_, ?_, ?_⟩
     · rw [hw]; unfold borrowSeized; simp only; exact Bal.get_add_self _ _ _
     · rw [hw]; unfold borrowSeized; simp only; rw [Bal.get_add_self]; omega
-    · rw [hw]; rfl
-    · rw [hw]; rfl
+    · rw [hw]; unfold borrowSeized; simp only; rw [Bal.get_add_self]; omega
+    · rw [hw]; exact ⟨_, _, rfl, rfl, rfl, rfl, rfl, rfl, rfl, rfl, rfl, rfl, rfl, rfl, rfl⟩
 
 /-- a failing step inside `ApplyFuncIfNoError` leaves no writes (the sweep then goes on with the next position) -/
 theorem failing_step_leaves_no_writes (f : World → Option World) (w : World) (h : f w = none) : applyIfNoError f w = w := by
@@ -294,10 +412,10 @@ def leakEnv : Env :=
     apps := [{ id := 3, wl2 := true, dutch2 := false }] }
 
 def leakWorld : World :=
-  { borrows := [{ id := 1, app := 3, pool := 1, assetIn := 6, assetOut := 7, amountIn := 100000000, debt := 65000000,
+  { borrows := [{ id := 1, app := 3, pool := 1, assetIn := 6, assetOut := 7, amountIn := 100000000, principal := 65000000, cAsset := 9, lendId := 1, outPool := 1,
                   bridgedAmount := 0, bridgedAsset := 0, firstTransit := 8, secondTransit := 6, liquidated := false, emode := false,
                   lt := 750000000000000000, elt := 0, ltFirst := 850000000000000000, ltSecond := 750000000000000000 }]
-    poolBal := [(6, 1000000000)], auctionBal := [(6, 0)] }
+    poolBal := [(6, 1000000000), (9, 1000000000)], auctionBal := [(6, 0)], lendBal := [(1, 100000000)] }
 
 /-- the former leak witness (lend app whitelisted, no auction type activated, borrow unsafe): the hook now leaves the
 borrow, custody and books untouched and only advances the borrow offset; with Dutch auctions activated the same
@@ -311,75 +429,142 @@ theorem v2_borrow_witness_atomic :
 
 /-! ## seizure effect -/
 
-/-- **Seizure moves exactly the recorded collateral into auction custody** (and nothing else, and no other asset):
-every successful per-vault step of either generation either changes nothing or hands over a vault `v` with
-`vaultUnsafe`, after which auction custody of the collateral asset grew by exactly `v.amountIn`, the vault module's
-shrank by the same, all other assets and the lend pool are unchanged. -/
+/-- what both vault hand-overs have in common, in terms of the amounts `k` written on the locked vault -/
+def VaultHandedOver (w w' : World) (v : Vault) (asset : Nat) (k : Amounts) : Prop :=
+  w'.auctionBal.get asset = w.auctionBal.get asset + v.amountIn ∧
+  w'.vaultBal.get asset = w.vaultBal.get asset - v.amountIn ∧
+  (∀ a', a' ≠ asset → w'.auctionBal.get a' = w.auctionBal.get a' ∧ w'.vaultBal.get a' = w.vaultBal.get a') ∧
+  w'.poolBal = w.poolBal ∧ w'.lendBal = w.lendBal ∧ w'.totalLend = w.totalLend ∧ w'.totalBorrowed = w.totalBorrowed ∧
+  (v.amountIn ≤ w.vaultBal.get asset ∨ v.amountIn = 0) ∧
+  w'.auctionId = w.auctionId + 1 ∧ w'.lockedId = w.lockedId + 1 ∧
+  w'.newAuctions = w.newAuctions ++ [{ id := w.auctionId + 1, locked := w.lockedId + 1, asset := asset, amount := v.amountIn, target := k.target }] ∧
+  w'.newLocked = w.newLocked ++ [{ id := w.lockedId + 1, orig := v.id, app := v.app, amountIn := v.amountIn, isBorrow := false,
+                                   debt := k.debt, target := k.target, fee := k.fee, bonus := k.bonus, cr := k.cr, collValue := k.collValue }]
+
+theorem vaultHandedOver_of (w w' : World) (v : Vault) (a : Nat) (k : Amounts) (hnn : 0 ≤ v.amountIn)
+    (h : handOver w v a k = some w') : VaultHandedOver w w' v a k := by
+  obtain ⟨h1, h2, h3, h4, h5, h6, h7, h8, _, _, _, h12, h13, h14, h15⟩ := handOver_effect w w' v a k hnn h
+  exact ⟨h1, h2, h3, h4, h12, h13, h14, h15, h5, h6, h7, h8⟩
+
+/-- **Seizure moves exactly the recorded collateral into auction custody** (and nothing else, no other asset, no lend
+accounting): every successful per-vault step of either generation either changes nothing or hands over the vault `v`, unsafe
+on its recorded debt and unguarded: auction custody of the collateral asset grows by exactly `v.amountIn` — the WHOLE recorded
+collateral, the amount written on the locked vault and on the auction —, the vault module's shrinks by the same and held at
+least that much. The amounts on the locked vault are what the code computes AFTER booking the interest:
+generation 2 `DebtToken = principal + interest(after accrual) + closing fee`, `FeeToBeCollected = trunc(DebtToken · LiquidationPenalty)`,
+`BonusToBeGiven = 0`, `TargetDebt = DebtToken + FeeToBeCollected` = the auction's debt, ratio recomputed on that debt;
+generation 1 `AmountOut = principal`, `InterestAccumulated = interest(after accrual) + closing fee`, `CollateralToBeAuctioned` =
+value of the collateral, auction inflow target `= principal + trunc(principal · penalty) + interest + closing fee`. -/
 theorem seize_moves_exactly_collateral :
     (∀ (e : Env) (id : Nat) (w w' : World), (∀ q, q ∈ w.vaults → 0 ≤ q.amountIn) → liquidateVaultV2 e id w = some w' →
-      w' = w ∨ ∃ v p, w.vaults.find? (·.id == id) = some v ∧ e.product? v.prod = some p ∧ vaultUnsafe e v = true ∧
-        w'.auctionBal.get p.assetIn = w.auctionBal.get p.assetIn + v.amountIn ∧
-        w'.vaultBal.get p.assetIn = w.vaultBal.get p.assetIn - v.amountIn ∧
-        (∀ a', a' ≠ p.assetIn → w'.auctionBal.get a' = w.auctionBal.get a' ∧ w'.vaultBal.get a' = w.vaultBal.get a') ∧
-        w'.poolBal = w.poolBal) ∧
+      w' = w ∨ ∃ v p k, w.vaults.find? (·.id == id) = some v ∧ e.product? v.prod = some p ∧ vaultUnsafe e v = true ∧
+        GuardsOff e v.app ∧ VaultHandedOver w w' v p.assetIn k ∧
+        k.debt = v.amountOut + v.intPost + v.closingFee ∧ k.fee = Dec.truncateInt (Dec.mul (Dec.ofInt k.debt) p.penalty) ∧
+        k.bonus = 0 ∧ k.target = k.debt + k.fee ∧ vaultCR e p v.amountIn k.debt = some k.cr) ∧
     (∀ (e : Env) (a : Nat) (v : Vault) (w w' : World), 0 ≤ v.amountIn → liquidateVaultV1 e a v w = some w' →
-      w' = w ∨ ∃ p, e.product? v.prod = some p ∧ vaultUnsafe e v = true ∧
-        w'.auctionBal.get p.assetIn = w.auctionBal.get p.assetIn + v.amountIn ∧
-        w'.vaultBal.get p.assetIn = w.vaultBal.get p.assetIn - v.amountIn ∧
-        (∀ a', a' ≠ p.assetIn → w'.auctionBal.get a' = w.auctionBal.get a' ∧ w'.vaultBal.get a' = w.vaultBal.get a') ∧
-        w'.poolBal = w.poolBal) := by
+      w' = w ∨ ∃ p k, v.app = a ∧ e.product? v.prod = some p ∧ vaultUnsafe e v = true ∧ VaultHandedOver w w' v p.assetIn k ∧
+        k.debt = v.amountOut ∧ k.fee = v.intPost + v.closingFee ∧
+        k.target = v.amountOut + Dec.truncateInt (Dec.mul (Dec.ofInt v.amountOut) p.penalty) + k.fee ∧
+        vaultCR e p v.amountIn (v.amountOut + v.intPost + v.closingFee) = some k.cr ∧
+        e.valueOf p.assetIn v.amountIn = some k.collValue) := by
   constructor
   · intro e id w w' hnn h
     cases liquidateVaultV2_cases e id w w' h with
     | inl h => exact Or.inl h
     | inr h =>
-      obtain ⟨v, p, hf, hp, hu, ho⟩ := h
-      have he := handOver_effect w w' v p.assetIn (hnn v (find_id_eq hf).2) ho
-      exact Or.inr ⟨v, p, hf, hp, hu, he.1, he.2.1, he.2.2.1, he.2.2.2.1⟩
+      obtain ⟨v, p, k, hf, hp, hu, hg, _, hk, ho⟩ := h
+      have hv := vaultHandedOver_of w w' v p.assetIn k (hnn v (find_id_eq hf).2) ho
+      unfold amountsV2 at hk
+      cases hcr : vaultCR e p v.amountIn v.totalOutPost with
+      | none => simp [hcr] at hk
+      | some cr =>
+        simp only [hcr, Option.some.injEq] at hk
+        subst hk
+        exact Or.inr ⟨v, p, _, hf, hp, hu, hg, hv, rfl, rfl, rfl, rfl, hcr⟩
   · intro e a v w w' hnn h
     cases liquidateVaultV1_cases e a v w w' h with
     | inl h => exact Or.inl h
     | inr h =>
-      obtain ⟨p, hp, hu, ho⟩ := h
-      have he := handOver_effect w w' v p.assetIn hnn ho
-      exact Or.inr ⟨p, hp, hu, he.1, he.2.1, he.2.2.1, he.2.2.2.1⟩
+      obtain ⟨p, k, ha, hp, hu, _, hk, ho⟩ := h
+      have hv := vaultHandedOver_of w w' v p.assetIn k hnn ho
+      unfold amountsV1 at hk
+      cases hcr : vaultCR e p v.amountIn v.totalOutPost with
+      | none => simp [hcr] at hk
+      | some cr =>
+        cases hin : e.valueOf p.assetIn v.amountIn with
+        | none => simp [hcr, hin] at hk
+        | some tin =>
+          simp only [hcr, hin, Option.some.injEq] at hk
+          subst hk
+          exact Or.inr ⟨p, _, ha, hp, hu, hv, rfl, rfl, rfl, hcr, hin⟩
 
-/-- **Seizure opens exactly one auction for it**: the auction counter and the locked-vault counter advance by exactly
-one, exactly one auction record is added — for the new locked vault, over the collateral asset, of exactly
-`v.amountIn` — and exactly one locked-vault record, for vault `v`. -/
+/-- **Seizure opens exactly one auction for it**: whenever a per-vault step of either generation changes the state, the
+auction counter and the locked-vault counter advance by exactly one and exactly one auction record and one locked-vault
+record are appended, the auction being for that locked vault, over the collateral asset, of exactly the locked amount, with
+the locked vault's target as its debt. (Borrows: `borrow_step_atomic`, `flagged_borrow_is_backed`.) -/
 theorem seize_opens_one_auction :
     (∀ (e : Env) (id : Nat) (w w' : World), (∀ q, q ∈ w.vaults → 0 ≤ q.amountIn) → liquidateVaultV2 e id w = some w' →
-      w' = w ∨ ∃ v p, w.vaults.find? (·.id == id) = some v ∧ e.product? v.prod = some p ∧
-        w'.auctionId = w.auctionId + 1 ∧ w'.lockedId = w.lockedId + 1 ∧
-        w'.newAuctions = w.newAuctions ++ [{ id := w.auctionId + 1, locked := w.lockedId + 1, asset := p.assetIn, amount := v.amountIn }] ∧
-        w'.newLocked = w.newLocked ++ [{ id := w.lockedId + 1, orig := v.id, app := v.app, amountIn := v.amountIn, isBorrow := false }]) ∧
+      w' = w ∨ (w'.auctionId = w.auctionId + 1 ∧ w'.lockedId = w.lockedId + 1 ∧
+        ∃ l a, w'.newLocked = w.newLocked ++ [l] ∧ w'.newAuctions = w.newAuctions ++ [a] ∧ a.locked = l.id ∧
+          a.amount = l.amountIn ∧ a.target = l.target ∧ l.id = w.lockedId + 1 ∧ a.id = w.auctionId + 1)) ∧
     (∀ (e : Env) (a : Nat) (v : Vault) (w w' : World), 0 ≤ v.amountIn → liquidateVaultV1 e a v w = some w' →
-      w' = w ∨ ∃ p, e.product? v.prod = some p ∧
-        w'.auctionId = w.auctionId + 1 ∧ w'.lockedId = w.lockedId + 1 ∧
-        w'.newAuctions = w.newAuctions ++ [{ id := w.auctionId + 1, locked := w.lockedId + 1, asset := p.assetIn, amount := v.amountIn }] ∧
-        w'.newLocked = w.newLocked ++ [{ id := w.lockedId + 1, orig := v.id, app := v.app, amountIn := v.amountIn, isBorrow := false }]) := by
+      w' = w ∨ (w'.auctionId = w.auctionId + 1 ∧ w'.lockedId = w.lockedId + 1 ∧
+        ∃ l au, w'.newLocked = w.newLocked ++ [l] ∧ w'.newAuctions = w.newAuctions ++ [au] ∧ au.locked = l.id ∧
+          au.amount = l.amountIn ∧ au.target = l.target ∧ l.id = w.lockedId + 1 ∧ au.id = w.auctionId + 1)) := by
   constructor
   · intro e id w w' hnn h
-    cases liquidateVaultV2_cases e id w w' h with
-    | inl h => exact Or.inl h
-    | inr h =>
-      obtain ⟨v, p, hf, hp, _, ho⟩ := h
-      have he := handOver_effect w w' v p.assetIn (hnn v (find_id_eq hf).2) ho
-      exact Or.inr ⟨v, p, hf, hp, he.2.2.2.2.1, he.2.2.2.2.2.1, he.2.2.2.2.2.2.1, he.2.2.2.2.2.2.2.1⟩
+    rcases seize_moves_exactly_collateral.1 e id w w' hnn h with h | ⟨v, p, k, _, _, _, _, hv, _⟩
+    · exact Or.inl h
+    · exact Or.inr ⟨hv.2.2.2.2.2.2.2.2.1, hv.2.2.2.2.2.2.2.2.2.1, _, _, hv.2.2.2.2.2.2.2.2.2.2.2, hv.2.2.2.2.2.2.2.2.2.2.1, rfl, rfl, rfl, rfl, rfl⟩
   · intro e a v w w' hnn h
-    cases liquidateVaultV1_cases e a v w w' h with
-    | inl h => exact Or.inl h
-    | inr h =>
-      obtain ⟨p, hp, _, ho⟩ := h
-      have he := handOver_effect w w' v p.assetIn hnn ho
-      exact Or.inr ⟨p, hp, he.2.2.2.2.1, he.2.2.2.2.2.1, he.2.2.2.2.2.2.1, he.2.2.2.2.2.2.2.1⟩
+    rcases seize_moves_exactly_collateral.2 e a v w w' hnn h with h | ⟨p, k, _, _, _, hv, _⟩
+    · exact Or.inl h
+    · exact Or.inr ⟨hv.2.2.2.2.2.2.2.2.1, hv.2.2.2.2.2.2.2.2.2.1, _, _, hv.2.2.2.2.2.2.2.2.2.2.2, hv.2.2.2.2.2.2.2.2.2.2.1, rfl, rfl, rfl, rfl, rfl⟩
+
+/-! ### generation 1: the borrow sell-off -/
+
+/-- **What the generation-1 sell-off keeps consistent**: the collateral left on the locked vault / the borrow and the
+reduction of the lend position (and of `TotalLend`) add up to the collateral the position held; nothing is negative.
+(The TRANSFERS `toAuction`, `toReserve` and the burnt cTokens `totalDeduction` are not capped — next theorem.) -/
+theorem v1_selloff_records (i : SellOffIn) (o : SellOffOut) (h : sellOffV1 i = some o) (hin : 0 ≤ i.amountIn) :
+    0 ≤ o.newAmountIn ∧ o.newAmountIn + o.lendReduction = i.amountIn ∧ o.lendReduction ≤ i.amountIn ∧
+    0 ≤ o.toAuction ∧ 0 ≤ o.toReserve ∧ 0 ≤ o.totalDeduction ∧
+    (o.totalDeduction < i.amountIn → o.lendReduction = o.totalDeduction) := by
+  unfold sellOffV1 at h
+  split at h
+  · cases h
+  · simp only at h
+    split at h
+    · cases h
+    · split at h
+      · cases h
+      · split at h
+        · cases h
+        · split at h
+          · cases h
+          · rename_i hneg
+            simp only [Option.some.injEq] at h
+            subst h
+            simp only
+            split <;> omega
+
+/-- **The generation-1 sell-off can move more collateral than the position held** (found on the real code by the harness,
+`UpdateLockedBorrows` called on a branch): collateral 1 083 074 820 at price 1.66, debt 892 889 230 at price 2.00 (ratio 0.993),
+LTV 0.81, bonus 0.05: 1 394 003 545 units are sent pool → auction account and as many cTokens burnt, the records are capped
+at zero. The excess comes out of the pool, i.e. from the other lenders. -/
+theorem v1_selloff_can_exceed_collateral_counterexample :
+    ∃ o, sellOffV1 { amountIn := 1083074820, updatedOut := 892889230, pIn := 1660000, pOut := 2000000, dIn := 1000000, dOut := 1000000,
+                     c := 810000000000000000, pen := 0, bon := 50000000000000000 } = some o ∧
+      o.toAuction = 1394003545 ∧ o.toAuction > 1083074820 ∧ o.totalDeduction = 1394003545 ∧ o.newAmountIn = 0 ∧ o.lendReduction = 1083074820 := by
+  exact ⟨_, rfl, by decide, by decide, by decide, by decide, by decide⟩
 
 /-! ## non-vacuity -/
 
 -- the hypotheses of `safe_never_seized` hold of a non-trivial state on which the hook really seizes
 example : NodupIds witWorld ∧ NodupB witWorld ∧
-    ∃ w', (blockV1 witEnv 3 witWorld).world? = some w' ∧ w'.vaults.map (·.id) = [1, 2] ∧ w'.auctionBal.get 1 = 800251 :=
-  ⟨by unfold NodupIds; decide, by unfold NodupB; decide, _, rfl, by decide, by decide⟩
+    ∃ w', (blockV1 witEnv 3 witWorld).world? = some w' ∧ w'.vaults.map (·.id) = [1, 2] ∧ w'.auctionBal.get 1 = 800251 ∧
+      w'.newLocked.map (·.target) = [1120000] :=
+  ⟨by unfold NodupIds; decide, by unfold NodupB; decide, _, rfl, by decide, by decide, by decide⟩
 
 -- `unsafe_processed_is_seized`: all hypotheses hold of vault 3 of the witness
 example : witWorld.vaults.find? (·.id == 3) = some (witWorld.vaults.getD 2 default) ∧
